@@ -7,7 +7,7 @@ ObjSeq <- ObjSeqDef
 FmtSel = {1, 2}
 RndSel = {1, 2}
 OvfSel = {1}
-GridSel = {2, 4, 5}
+GridSel = {2, 4, 6}
 Acts <- ActsC04
 Depth = 3
 EXT = 4
